@@ -4,6 +4,7 @@ package interp
 
 import (
 	"fmt"
+	"math"
 	"sort"
 	"strings"
 	"sync"
@@ -22,10 +23,87 @@ type CheckResult struct {
 
 // Draw is one nondeterministic value handed to the harness (for native replay).
 type Draw struct {
-	Kind string `json:"kind"` // bool choice f64 i64 int rune sbool str
-	Term string `json:"term,omitempty"`
-	N    int    `json:"n,omitempty"`
-	Val  int    `json:"val"`
+	Kind  string `json:"kind"` // bool choice f64 i64 int rune sbool str + accessor kinds
+	Term  string `json:"term,omitempty"`
+	N     int    `json:"n,omitempty"`
+	Val   int    `json:"val"`
+	Const string `json:"const,omitempty"` // concrete value (decimal bit pattern / text)
+	Sort  string `json:"sort,omitempty"`
+}
+
+// logVal records a value handed to the harness by an accessor intrinsic, so that a native
+// replay can hand out the same (concretised) value.
+func (e *Explorer) logVal(kind string, v value) {
+	d := Draw{Kind: kind}
+	switch x := v.(type) {
+	case sym:
+		d.Term = x.t
+		switch x.k {
+		case sBool:
+			d.Sort = "bool"
+		case sBV:
+			d.Sort = "bv"
+		case sF64:
+			d.Sort = "f64"
+		case sReal:
+			d.Sort = "grid"
+			d.N = gridBits + 1
+		case sInt:
+			d.Sort = "int"
+		case sStr:
+			d.Sort = "str"
+		}
+		e.addEval(x.t)
+		if x.k == sStr {
+			e.addEval("(blen " + x.t + ")")
+			e.addEval("(rlen " + x.t + ")")
+			e.strEvals(x.t)
+		}
+	case bool:
+		d.Sort = "bool"
+		if x {
+			d.Const = "1"
+		} else {
+			d.Const = "0"
+		}
+	case string:
+		d.Sort = "str"
+		d.Const = x
+	case float64:
+		d.Sort = "f64"
+		d.Const = fmt.Sprint(math.Float64bits(x))
+	default:
+		if iv, ok := tryInt64(x); ok {
+			d.Sort = "bv"
+			d.Const = fmt.Sprint(uint64(iv))
+		} else {
+			d.Sort = "opaque"
+		}
+	}
+	e.res.Draws = append(e.res.Draws, d)
+}
+
+func tryInt64(v value) (n int64, ok bool) {
+	defer func() {
+		if recover() != nil {
+			ok = false
+		}
+	}()
+	switch v.(type) {
+	case int, int8, int16, int32, int64, uint, uint8, uint16, uint32, uint64, uintptr:
+		return asInt64(v), true
+	}
+	return 0, false
+}
+
+// strEvals registers the match predicates mentioned so far for a string term.
+func (e *Explorer) strEvals(term string) {
+	internMu.Lock()
+	n := len(patByID)
+	internMu.Unlock()
+	for k := 0; k < n; k++ {
+		e.addEval(fmt.Sprintf("(M!%d %s)", k, term))
+	}
 }
 
 // PathResult describes one explored path.
@@ -47,6 +125,14 @@ type PathResult struct {
 	PC        []string          `json:"-"`
 	Witnesses map[string]string `json:"witnesses,omitempty"`
 	Events    []Event           `json:"events,omitempty"`
+	Docs      []DocNodeInfo     `json:"docs,omitempty"`
+}
+
+// DocNodeInfo names the solver variables of one document node (for replay).
+type DocNodeInfo struct {
+	Doc    int    `json:"doc"`
+	Path   string `json:"path"`
+	Prefix string `json:"prefix"`
 }
 
 // HoleInfo records a symbolic number that was formatted into emitted text.
@@ -79,6 +165,10 @@ type Explorer struct {
 	s2       map[string]*Stage2
 	fnFuel   map[string]int
 	pcDirty  bool
+	params   map[string]int
+	s2list    []*Stage2
+	s2results []*S2Result
+	opaqueSrc map[*value]*docNode
 }
 
 type holeRec struct {
